@@ -212,8 +212,8 @@ func c16Mutations(l tinkLayout, rawb []byte, n int, detail, huge, slowStore bool
 	// (2) length prefix
 	// The most significant byte scales the header allocation by 16 MiB per bit:
 	// tink.go allocates make([]byte, headerLen) unchecked. Gigabyte-sized values
-	// are only driven once per stack in the thorough tier (touching that much
-	// fresh memory takes tens of seconds in this sandbox).
+	// are not driven (paging in that much fresh memory takes minutes in this
+	// sandbox); 256 MiB is driven once per stack in the thorough tier.
 	for o := l.base; o < l.base+4; o++ {
 		masks := []byte{0x01, 0x80, nzMask(rg)}
 		if o == l.base {
@@ -221,7 +221,7 @@ func c16Mutations(l tinkLayout, rawb []byte, n int, detail, huge, slowStore bool
 			if detail {
 				masks = append(masks, 0x02)
 				if huge {
-					masks = append(masks, 0x80)
+					masks = append(masks, 0x10) // 256 MiB header allocation
 				}
 			}
 		}
